@@ -143,7 +143,7 @@ def case_stream(rng, tier):
     i = 0
     kinds = ["missing", "open_err", "read_err", "isdir", "malformed", "malformed", "dsl", "dsl", "dsl_end", "out_schema", "out_x",
              "stdout_write", "stdout_write", "gz_trunc", "join_left", "first_record_early_exit", "target_open", "target_write",
-             "target_write", "target_close", "split_write", "redirect_write", "pipe_early_exit", "not_fired", "target_schema", "evicted_target_write", "two_missing", "multi_redirect_close"]
+             "target_write", "target_close", "split_write", "redirect_write", "pipe_early_exit", "not_fired", "target_schema", "evicted_target_write", "two_missing", "multi_redirect_close", "prepipe_fail"]
     while True:
         i += 1
         r = rng.fork("f", i)
@@ -363,6 +363,19 @@ def build_case(r, kind, tier):
     elif kind == "two_missing":
         # two unopenable inputs: the second error is posted while the first may still be pending
         names = ["nope1." + fmt] + names + ["nope2." + fmt]
+    elif kind == "prepipe_fail":
+        # the command producing the input fails (cannot be started, rejects the data, or ends with a non-zero status
+        # after writing everything): the input could not be read properly, whatever did arrive
+        which = r.choice(["false", "nosuch", "gunzip_plain", "exit3_after_all", "gunzip_truncated"])
+        pre = {"false": ["--prepipe", "false"], "nosuch": ["--prepipe", "no-such-command-xyz"], "gunzip_plain": ["--prepipe", "gunzip"],
+               "exit3_after_all": ["--prepipex", "sh -c 'cat \"$0\"; exit 3'"], "gunzip_truncated": ["--prepipe", "gunzip"]}[which]
+        if which == "gunzip_truncated":
+            raw = files[names[j]].encode() * 40
+            z = gzip.compress(raw)
+            files[names[j]] = z[:r.randint(len(z) // 3, len(z) - 9)].decode("latin1")
+        case["main_flags"] = pre
+        case["children"] = True
+        verbs = [v for v in verbs if v[0] != "unsparsify"] or [["cat"]]
     elif kind == "pipe_early_exit":
         big = rect_records(r, r.choice([1500, 3000]))
         files[names[j]] = fmt_text(fmt, big)
